@@ -564,7 +564,8 @@ func sessionChargingReservation(
 			usedQuota := uint64(totalUsedUnit * ue.UnitCost[rg])
 			requestedQuota = uint64(uint32(unitUsage.RequestedUnit.TotalVolume) * ue.UnitCost[rg])
 			ue.ReservedQuota[rg] -= int64(usedQuota)
-			NeedReserveQuota := !(ue.ReservedQuota[rg] > 0)
+			// reserve whatever the reservation lacks to cover the requested quota
+			NeedReserveQuota := ue.ReservedQuota[rg] < int64(requestedQuota)
 
 			if NeedReserveQuota {
 				reserveQuota := -uint64(ue.ReservedQuota[rg]) + requestedQuota
@@ -598,9 +599,17 @@ func sessionChargingReservation(
 				}
 			}
 
+			// Only the money actually reserved may be turned into granted units
+			monetaryQuota := requestedQuota
+			if ue.ReservedQuota[rg] <= 0 {
+				monetaryQuota = 0
+			} else if uint64(ue.ReservedQuota[rg]) < monetaryQuota {
+				monetaryQuota = uint64(ue.ReservedQuota[rg])
+			}
+
 			sur.ServiceRating = &charging_datatype.ServiceRating{
 				ServiceIdentifier: datatype.Unsigned32(rg),
-				MonetaryQuota:     datatype.Unsigned32(requestedQuota),
+				MonetaryQuota:     datatype.Unsigned32(monetaryQuota),
 				RequestSubType:    charging_datatype.REQ_SUBTYPE_RESERVE,
 			}
 
